@@ -106,6 +106,9 @@ func genXm(r *core.Rand, pr Profile, sec bool, mayClose bool, seqMode bool) stri
 	if pv == "10" {
 		rf = "cl"
 	}
+	if seqMode && rb > 0 && r.Chance(1, 5) { // an upload that can be gated on an early answer (early.go)
+		rb, rf = r.Pick2(20000, 65536), "cl"
+	}
 	kv = append(kv, fmt.Sprintf("rb=%d", rb), "rf="+rf)
 	rq, rs := "pass", "pass"
 	if pr.Modifiers {
@@ -215,12 +218,10 @@ func genXm(r *core.Rand, pr Profile, sec bool, mayClose bool, seqMode bool) stri
 		}
 	}
 	// an origin that answers before it has read the whole upload, the client still sending
-	if seqMode && o == "ok" && rb >= 2 && ob >= 2 && !bodiless(m, st) && rq == "pass" && rs == "pass" && r.Chance(1, 3) {
-		ea := rb / 8
-		if ea < 1 {
-			ea = 1
-		}
-		kv = append(kv, fmt.Sprintf("ea=%d", ea))
+	// (the upload must be larger than the buffers on the way - 4 KiB in the proxy's reader and in the
+	// transport's writer - or its beginning never reaches the origin before its end does)
+	if seqMode && o == "ok" && (rb >= earlyMinChunkedUpload || (rb >= earlyMinUpload && rf == "cl")) && ob >= 2 && !bodiless(m, st) && rq == "pass" && rs == "pass" && r.Chance(2, 3) {
+		kv = append(kv, fmt.Sprintf("ea=%d", r.Pick2(1, 1024)))
 		core.Count("early:generated")
 	}
 	if sec {
@@ -284,6 +285,9 @@ func GenCase(r *core.Rand, pr Profile) []string {
 		// the model's keep-alive / framing functions against the real net/http, without a proxy
 		core.Count("wire:differential-op-cases")
 		return GenWireOps(r, 12)
+	}
+	if r.Chance(1, 12) {
+		return genEarlyCase(r, pr)
 	}
 	n := r.Range(1, 6)
 	tunnel := pr.Tunnels && r.Chance(2, 3)
@@ -383,6 +387,52 @@ func GenCase(r *core.Rand, pr Profile) []string {
 	}
 	ops = append(ops, "end")
 	return ops
+}
+
+// genEarlyCase: a sequential connection on which origins answer before the upload has ended
+// (early.go), with ordinary exchanges in between; the last exchange may end the connection.
+func genEarlyCase(r *core.Rand, pr Profile) []string {
+	listener := r.Pick("plain", "plain", "plain", "shaped")
+	if pr.Tunnels && r.Chance(1, 3) {
+		listener = r.Pick("tls", "shapedtls")
+	}
+	sec := listenerTLS(listener)
+	ops := []string{"conn mode=seq listener=" + listener + " shutdown=0"}
+	n := r.Range(1, 3)
+	for i := 0; i < n; i++ {
+		last := i == n-1
+		if r.Chance(1, 4) {
+			ops = append(ops, genXm(r, pr, sec, last, true))
+			continue
+		}
+		rb := r.Pick2(20000, 65536)
+		if pr.BigBodies && r.Chance(1, 3) {
+			rb = 1<<20 + r.Intn(1<<20)
+		}
+		rf := "cl"
+		if rb >= earlyMinChunkedUpload && r.Bool() {
+			rf = "ch"
+		}
+		of := r.Pick("cl", "ch", "ch")
+		if last && r.Chance(1, 5) {
+			of = "close"
+		}
+		tf := r.Pick("origin", "abs")
+		if sec && tf == "abs" && r.Bool() {
+			tf = "abss"
+		}
+		kv := []string{"x", "m=" + r.Pick("POST", "PUT", "PATCH"), "tf=" + tf, "pv=11", "ct=-",
+			fmt.Sprintf("hs=%d", r.Range(1, 9999)), fmt.Sprintf("hdr=%d", r.Intn(4)), fmt.Sprintf("ohdr=%d", r.Intn(3)),
+			fmt.Sprintf("rb=%d", rb), "rf=" + rf, "rq=pass", "rs=pass", "o=ok", "st=" + r.Pick("200", "200", "201", "404", "500"),
+			fmt.Sprintf("ob=%d", r.Pick2(r.Range(2, 600), r.Pick2(4096, 20000))), "of=" + of, "opv=11", "oct=-", "gz=0",
+			fmt.Sprintf("ea=%d", r.Pick2(1, 1024))}
+		if sec {
+			kv = append(kv, "sec=1")
+		}
+		core.Count("early:generated")
+		ops = append(ops, strings.Join(kv, " "))
+	}
+	return append(ops, "end")
 }
 
 // tflip: which of the two TLS flavours the odd layers of the connection get (tlsid.go).
